@@ -376,6 +376,10 @@ func Cond(r *core.Rand, o Opts, depth int) string {
 		case 1:
 			return ref(r, o) + " " + r.Pick([]string{"=", "!=", "<", "<=", ">", ">="}) + " " + literal(r)
 		case 2:
+			if r.Chance(o.Odd, 60) {
+				// scans as a regex token but does not compile: the statement is rejected
+				return ident(r, tagPool, o.SafeNames) + " " + r.Pick([]string{"=~", "!~"}) + " " + r.Pick([]string{"/^(web|db$/", "/[/", "/a{2,1}/", "/web(/"})
+			}
 			return ident(r, tagPool, o.SafeNames) + " " + r.Pick([]string{"=~", "!~"}) + " " + r.Pick([]string{"/^a$/", "/^(a|b)$/", "/serv.*/", "/^server0[12]$/", "/(?i)^a$/", "/a/", "/^$/"})
 		case 3:
 			return r.Pick([]string{"true", "false"})
